@@ -65,7 +65,37 @@ def _is_sweep(ctx, fi, loop):
     """a loop over (a snapshot of) the children that removes those the rule does not allow"""
     if not isinstance(loop, ast.For):
         return False
-    has_test = any(isinstance(n, ast.Call) and isinstance(n.func, ast.Attribute) and n.func.attr == "is_allowed_child" for n in ast.walk(loop))
+    def is_test(n):
+        return isinstance(n, ast.Call) and isinstance(n.func, ast.Attribute) and n.func.attr == "is_allowed_child"
+    has_test = any(is_test(n) for n in ast.walk(loop))
+    if not has_test and isinstance(loop.iter, ast.Name):
+        # two-step form: the offending children are collected first -- D = [c for c in n.children if not rule.is_allowed_child(c.name)] --
+        # and then removed one by one
+        defs = [a.value for a in ast.walk(fi.node) if isinstance(a, ast.Assign) and len(a.targets) == 1 and isinstance(a.targets[0], ast.Name)
+                and a.targets[0].id == loop.iter.id]
+        if len(defs) == 1 and isinstance(defs[0], ast.ListComp) and len(defs[0].generators) == 1 and defs[0].generators[0].ifs:
+            g = defs[0].generators[0]
+            conds = g.ifs
+            if any(is_test(n) for c in conds for n in ast.walk(c)) and isinstance(defs[0].elt, ast.Name) and isinstance(g.target, ast.Name) \
+                    and defs[0].elt.id == g.target.id:
+                # polarity: the collected ones are those the rule does NOT allow
+                from ..peval import PEval, PEvalUnsupported, Raised
+
+                def verdict(allowed):
+                    pe = PEval(ctx.world)
+                    env = {}
+
+                    class Stub(ast.NodeTransformer):
+                        def visit_Call(self, n):
+                            if is_test(n):
+                                return ast.Constant(value=allowed)
+                            return self.generic_visit(n)
+                    import copy as _c
+                    try:
+                        return all(bool(pe.truth(pe.eval(Stub().visit(_c.deepcopy(c)), env, fi), c)) for c in conds)
+                    except (PEvalUnsupported, Raised):
+                        return None
+                has_test = verdict(False) is True and verdict(True) is False
     has_rm = any(any(x is d for x in ast.walk(loop)) for (d, _p, _h) in discard_sites(ctx, fi))
     return has_test and has_rm
 
@@ -205,7 +235,7 @@ def rule_r3(ctx, rep):
         if not ok:
             rep.add("R3", e.func, e.construct, f"prune writes field {e.field} of a node it keeps (kept nodes must be untouched)", e.loc)
     rep.floor("records in the result list", 2)
-    rep.floor("removals in prune", 3)
+    rep.floor("removals in prune", 2)
 
 
 def _same_block(fi, rec_call, other):
@@ -367,6 +397,32 @@ def rule_r6(ctx, rep):
                 elif tg.func.qname == "metapype.eml.validate.node":
                     val.append((n, first.id))
     rep.count("strict validations of a loop child", len(val))
+    strictp0 = fi.params[1] if len(fi.params) > 1 else None
+    if not val and rec:
+        rep.oblige(("R6", "present"), False)
+        rep.add("R6", fi.qname, "strict-mode validation of the children", "prune never validates a child on its own: strict mode keeps children that fail "
+                "single-node validation", fi.loc())
+    # the strict validation is reached when strict is set and the child is still there (no test that is constantly false)
+    from ..condeval import enclosing_ifs as _eifs
+    from ..peval import PEval as _PE, PEvalUnsupported as _PU, Raised as _RA
+    for (c, var) in val:
+        childobj = {"__obj__": True, "name": "c", "_name": "c", "children": [], "_children": []}
+        env = {strictp0: True, var: childobj, nparam: {"__obj__": True, "name": "p", "_name": "p", "children": [childobj], "_children": [childobj]}}
+        reach = True
+        for (g, side) in _eifs(fi, c):
+            if not any(any(x is g for x in ast.walk(lp)) for lp in ast.walk(fi.node) if isinstance(lp, ast.For)):
+                continue
+            try:
+                v = bool(_PE(ctx.world).truth(_PE(ctx.world).eval(g.test, dict(env), fi), g.test))
+            except (_PU, _RA):
+                continue
+            if v != side:
+                reach = False
+                rep.oblige(("R6", "reachable", norm(g.test)[:40]), False)
+                rep.add("R6", fi.qname, g.test, f"with strict set and `{var}` still a child of `{nparam}` this test keeps prune from validating `{var}`: strict "
+                        f"mode leaves children that fail single-node validation", fi.loc(g))
+        if reach:
+            rep.oblige(("R6", "reachable", norm(c)), True)
     for (c, var) in val:
         md = MarkDomain()
         for (r, v) in rec:
@@ -396,7 +452,6 @@ def rule_r6(ctx, rep):
                 rep.add("R6", fi.qname, g.test, f"whether `{var}` is validated in strict mode depends on `{', '.join(foreign)}`: a child that is "
                         f"non-compliant on its own account (nothing pruned below it) is kept, although strict mode promises that every "
                         f"remaining node passes single-node validation", fi.loc(g))
-    rep.floor("strict validations of a loop child", 1)
 
 
 def run(ctx, rep):
